@@ -139,7 +139,7 @@ PROPS = {
         technique="Lean 4 proof (inductive invariants + refinement to an atomic CAS map) + schedule-controlled linearizability check against the model",
     ),
     "C10": dict(
-        modules=["Copia.Props.C10", "Copia.Props.C10b", "Copia.Props.C10c"], namespaces=["Copia.C10"], runner="bb", bb_module="bb_hubconc",
+        modules=["Copia.Props.C10", "Copia.Props.C10b", "Copia.Props.C10c", "Copia.Props.C10d"], namespaces=["Copia.C10"], runner="bb", bb_module="bb_hubconc",
         assumptions=_HUB_ASSUME + ["kernel semantics as for C03; 'every instant' = after every scheduling step of the client-paced schedule"],
         trusted_base=_HUB_TB,
         level_text="Kernel-checked inductive invariant over the interleaved system incl. kill transitions: in EVERY reachable state every client-visible path holds initial content or the complete bytes of one Put whose streamed hash equalled its declared hash; "
